@@ -156,6 +156,10 @@ def check_spec(spec, v, data=None):
             v.fail('unjustified_unit', f'unit {ui} DC {u}')
             continue
         tag = dec.tag_of(ui)
+        if tag is None and name == 'LocalOut':
+            js = [j for j, sk in enumerate(spec['sinks'])
+                  if sk['cls'] == 'LocalOut']
+            tag = G.SINKTAG0 + js[0] if js else None
         if tag is None:
             v.fail('unjustified_unit', f'unit {ui} {name} carries no tag: {u}')
             continue
